@@ -429,7 +429,8 @@ class Enumerator:
         out = {}
         for nm, lit in self.prog.module_constants(
                 finfo.module, names_ok=True).items():
-            if nm not in local and (isinstance(lit, ast.Dict) or not any(
+            if nm not in local and (isinstance(lit, (ast.Dict, ast.Call))
+                                    or not any(
                     isinstance(x, (ast.Name, ast.Attribute))
                     for x in ast.walk(lit))):
                 # plain constants, and lookup tables (whose values may name
@@ -509,6 +510,13 @@ class Enumerator:
                     if a.value is None or b.value is None or isinstance(
                             a.value, bool) or isinstance(b.value, bool):
                         return a.value is b.value
+            if isinstance(op, ast.Is) and isinstance(b, ast.Name) and \
+                    not b.id.startswith('SYM_'):
+                # identity with a sentinel object
+                if isinstance(a, ast.Name) and a.id == b.id:
+                    return True
+                if (key_of(a), b.id) in self.__dict__.get('_notsent', ()):
+                    return False
             if isinstance(op, ast.Is) and isinstance(b, ast.Constant) \
                     and b.value is None:
                 if isinstance(a, (ast.List, ast.Tuple, ast.Dict, ast.Set,
@@ -681,6 +689,13 @@ class Enumerator:
                 if (name, k) in (('Eq', 0), ('Lt', 1), ('LtE', 0)):
                     return neg
         return None
+
+    def _is_sentinel(self, module, name):
+        """a module-level name bound once to object()"""
+        v = module.assigns.get(name)
+        return name in self.prog._module_const_names(module) and \
+            isinstance(v, ast.Call) and isinstance(v.func, ast.Name) and \
+            v.func.id == 'object' and not v.args
 
     def _inline_target(self, call):
         if not isinstance(call, ast.Call):
@@ -1587,6 +1602,18 @@ class Enumerator:
         return env
 
     def _inline(self, call, callee, st, handlers):
+        if any(has_call(a) for a in call.args) or any(
+                has_call(k.value) for k in call.keywords):
+            # arguments are evaluated before the callee runs
+            for s, c2, rs in self._eval_call_args(call, st, handlers, call):
+                if rs is not None:
+                    yield s, None, rs
+                else:
+                    yield from self._inline_bound(c2, callee, s, handlers)
+            return
+        yield from self._inline_bound(call, callee, st, handlers)
+
+    def _inline_bound(self, call, callee, st, handlers):
         env = self._bind_args(call, callee)
         if env is None:
             s = st.fork()
@@ -1620,6 +1647,12 @@ class Enumerator:
             for _s, st_ in results) or any(
                 st_[0] in ('next', 'break', 'continue')
                 for _s, st_ in results)
+        # ... likewise a module-level sentinel object handed back by name
+        sent_names = set()
+        for _s, st_ in results:
+            if st_[0] == 'return' and isinstance(st_[1], ast.Name) and \
+                    self._is_sentinel(callee.module, st_[1].id):
+                sent_names.add(st_[1].id)
         for s, status in results:
             s.env = dict(saved_env)
             if status[0] == 'return':
@@ -1628,6 +1661,11 @@ class Enumerator:
                 if sentinel and not isinstance(rv, ast.Constant):
                     self.__dict__.setdefault('_notnone', set()).add(
                         key_of(rv))
+                if sent_names and not (isinstance(rv, ast.Name)
+                                       and rv.id in sent_names):
+                    for nm in sent_names:
+                        self.__dict__.setdefault('_notsent', set()).add(
+                            (key_of(rv), nm))
                 yield s, rv, None
             elif status[0] == 'raise':
                 yield s, None, status
